@@ -210,6 +210,7 @@ static void part_a(Tape &t)
 struct ConnResult {
 	bool ok = false, abbreviated = false;
 	Bytes ms, sid, cr, sr;
+	Bytes offered_sid;          // the session_id field of the ClientHello as seen on the wire
 	uint16_t version = 0, suite = 0;
 	int cerr = 0, serr = 0;
 };
@@ -233,6 +234,11 @@ static ConnResult connect(BearClient &c, BearServer &s, const std::string &ctx)
 	};
 	S.run(600000);
 	r.cerr = c.error(); r.serr = s.error();
+	{
+		Bytes ch;
+		for (auto &rec : S.tap.recs[0]) if (rec.epoch == 0 && rec.type == 22) ch.insert(ch.end(), rec.payload.begin(), rec.payload.end());
+		if (ch.size() > 39 && ch[0] == 1 && ch.size() >= 39 + (size_t)ch[38]) r.offered_sid.assign(ch.begin() + 39, ch.begin() + 39 + ch[38]);
+	}
 	r.ok = S.established && r.cerr == 0 && r.serr == 0 && S.recvd[0] == 40 && S.recvd[1] == 50;
 	if (!S.established) return r;
 	r.ms.assign(cpp.master_secret, cpp.master_secret + 48);
@@ -345,8 +351,9 @@ static void part_b(Tape &t)
 		unsigned v = std::min(cvmax, svmax);
 		bool have = false;
 		MEntry me;
-		// a client does not offer a session whose version it no longer allows (it would have to refuse the answer): no lookup then
-		bool offered = resume && saved[ci].r.version >= cvmin && saved[ci].r.version <= cvmax;
+		// a client does not offer a session whose version it no longer allows (it would have to refuse the answer) or whose suite it
+		// no longer proposes (RFC 5246 7.4.1.2): no lookup then
+		bool offered = resume && saved[ci].r.version >= cvmin && saved[ci].r.version <= cvmax && std::find(csu.begin(), csu.end(), saved[ci].r.suite) != csu.end();
 		if (offered && !id_altered) have = mdl->load(saved[ci].r.sid, me);
 		bool suite_ok = resume && std::find(csu.begin(), csu.end(), saved[ci].r.suite) != csu.end() && std::find(ssu.begin(), ssu.end(), saved[ci].r.suite) != ssu.end();
 		bool version_ok = resume && saved[ci].r.version >= std::max(cvmin, svmin) && saved[ci].r.version <= v;
@@ -356,6 +363,16 @@ static void part_b(Tape &t)
 			// a forged id that the server does not know: full handshake expected; it must not fail
 		}
 		VF_CHECK(r.ok, "%s: connection failed (client error %d, server error %d) - a full handshake must take place whenever resumption is not possible", ctx.c_str(), r.cerr, r.serr);
+		// what the ClientHello says: a session is offered only if the client could accept its resumption (RFC 5246 7.4.1.2: the
+		// suite list of a resumption request MUST include the session's suite - an OpenSSL server answers anything else with a
+		// fatal illegal_parameter instead of the full handshake that is possible); same for the version
+		if (resume && !id_altered) {
+			bool client_could_resume = std::find(csu.begin(), csu.end(), saved[ci].r.suite) != csu.end() && saved[ci].r.version >= cvmin && saved[ci].r.version <= cvmax;
+			if (!client_could_resume)
+				VF_CHECK(r.offered_sid.empty(), "%s: the ClientHello offers session %s.. for resumption although the client %s", ctx.c_str(), hex(r.offered_sid.data(), r.offered_sid.size(), 8).c_str(),
+					std::find(csu.begin(), csu.end(), saved[ci].r.suite) == csu.end() ? fmt("does not propose its cipher suite %04x any more", saved[ci].r.suite).c_str() : fmt("does not allow its version %04x any more", saved[ci].r.version).c_str());
+			else VF_CHECK(r.offered_sid == saved[ci].r.sid, "%s: resumption requested, the ClientHello does not carry the remembered session id", ctx.c_str());
+		}
 		if (r.abbreviated) {
 			VF_CHECK(may_abbreviate, "%s: abbreviated handshake although %s", ctx.c_str(), !resume ? "the client offered no session" : id_altered ? "the offered id is not a cached one" :
 				!have ? "the cache does not hold the id any more (evicted / forgotten / other server)" : !suite_ok ? "the remembered suite is no longer acceptable to both sides" : "the remembered version is no longer acceptable");
